@@ -261,6 +261,76 @@ def run_ping_reply_case(case, out):
     return out
 
 
+def reply_records():
+    send = {r.name for r in E.SEND}
+    return [r for r in E.RECV if r.route == "reply" and r.request in send and r.module != "axolotl"]
+
+
+def run_reply_case(case, out):
+    """the reply to a request the application sent is an incoming stanza of a supported kind: exactly one entity of the kind that
+    belongs to that request arrives at the application side, carrying the reply's fields"""
+    rec = E.by_name(case["name"])
+    cls = rec.load()
+    req = E.by_name(case["request"])
+    req_cls = req.load()
+    configs = case.get("configs") or ALL_CONFIGS
+    out.label("in", "reply:" + rec.name, "owner=" + str(rec.owner), "module=" + rec.module)
+    evals = 0
+    for cfg in configs:
+        flags, axolotl = cfg[:4], bool(cfg[4])
+        if not module_on(rec, cfg):
+            continue
+        single = dict(case, configs=[cfg])
+        rig = ProtoRig(flags, axolotl)
+        try:
+            args = [S.unjson_val(a) for a in case["args"]]
+            kwargs = {k: S.unjson_val(v) for k, v in case["kwargs"].items()}
+            try:
+                ent = req_cls(*args, **kwargs)
+                rig.send(ent)
+            except Exception as e:
+                out.fail("down", "down:%s:raises:%s" % (req.name, type(e).__name__), {"error": repr(e)[:300], "config": cfg}, case=single)
+                return out
+            sent = [n for n in rig.bottom.sent if n.tag == "iq" and n["id"] == ent.getId()]
+            if len(sent) != 1:
+                out.fail("down", "down:%s:%s" % (req.name, "not_sent" if not sent else "sent_%d_times" % len(sent)), {"config": cfg}, case=single)
+                return out
+            tree = G.materialize(case["tree"])
+            tree = (tree[0], dict(tree[1], id=ent.getId()), tree[2])
+            before = len(rig.top.got)
+            try:
+                rig.inject(T.to_node(tree))
+            except Exception as e:
+                out.fail("up", "up:reply:%s:raises:%s" % (rec.name, type(e).__name__), {"error": repr(e)[:300], "config": cfg, "request": req.name}, case=single)
+                return out
+            got = rig.top.got[before:]
+            if len(got) != 1:
+                out.fail("up", "up:reply:%s:%s" % (rec.name, "not_delivered" if not got else "delivered_%d_times" % len(got)),
+                         {"config": cfg, "request": req.name, "got": [type(g).__name__ for g in got]}, case=single)
+                return out
+            e = got[0]
+            # (the plain result entity the iq layer hands up is an IqProtocolEntity of type result)
+            plain_result = rec.name == "ResultIqProtocolEntity" and type(e).__name__ == "IqProtocolEntity" and e.getType() == "result"
+            if not isinstance(e, cls) and type(e).__name__ != cls.__name__ and not plain_result:
+                out.fail("up", "up:reply:%s:wrong_entity_class" % rec.name, {"config": cfg, "request": req.name, "got": type(e).__name__}, case=single)
+                return out
+            try:
+                back = e.toProtocolTreeNode()
+            except Exception as ex:
+                out.fail("up", "up:reply:%s:entity_unserialisable:%s" % (rec.name, type(ex).__name__), {"error": repr(ex)[:200]}, case=single)
+                return out
+            d = c09.loose_diff(T.to_node(tree), back, "", getattr(rec, "numeric_tags", ()))
+            if d:
+                out.fail("up", "up:reply:%s:fields_differ:%s" % (rec.name, d[0]), {"config": cfg, "diff": d[1], "request": req.name}, case=single)
+                return out
+        finally:
+            rig.close()
+        evals += 1
+    out.evals = max(1, evals)
+    out.nontrivial_n = evals
+    return out
+
+
 def module_on(rec, cfg):
     if rec.module in FLAG_NAMES:
         return cfg[FLAG_NAMES.index(rec.module)]
@@ -301,6 +371,8 @@ def _run_case(case):
         return run_own_receipt_case(case, out)
     if case["sub"] == "in_ping_reply":
         return run_ping_reply_case(case, out)
+    if case["sub"] == "in_reply":
+        return run_reply_case(case, out)
     rec = E.by_name(case["name"])
     cls = rec.load()
     configs = case.get("configs") or ALL_CONFIGS
@@ -412,6 +484,12 @@ def plan(tier):
         strategies.append(("in_own_receipt:" + ("group" if group else "direct"),
                            st.builds(lambda body, rs, _g=group: {"sub": "in_own_receipt", "group": _g, "body": body, "receipts": rs},
                                      S.TEXT.strategy, st.lists(receipt, min_size=1, max_size=3)), n))
+    for r in reply_records():
+        q = E.by_name(r.request)
+        strategies.append(("in_reply:" + r.name,
+                           st.tuples(S.shape_strategy(r.shape), S.args_strategy(q.args, q.kwargs)).map(
+                               lambda t, _n=r.name, _q=q.name: {"sub": "in_reply", "name": _n, "request": _q, "tree": S.tree_to_json(t[0]),
+                                                                "args": t[1][0], "kwargs": t[1][1]}), n))
     strategies.append(("in_ping_reply",
                        st.builds(lambda who, reply, n, x, code: {"sub": "in_ping_reply", "who": who, "reply": reply, "n": n, "xmlns": x, "code": code},
                                  st.sampled_from(["keepalive", "application"]), st.sampled_from(["result", "result", "error"]), st.integers(1, 3),
